@@ -6,6 +6,7 @@ mod alloc;
 mod elffile;
 mod exec;
 mod gen;
+mod gen2;
 mod proj;
 mod rng;
 mod sections;
@@ -146,6 +147,13 @@ fn main() {
     }
 }
 
-pub fn gen_more(fam: &str, _r: &mut rng::Rng, _n: u64, _x: &mut exec::Exec, _sink: &mut Sink) {
-    panic!("harness: unknown generator family {fam}");
+pub fn gen_more(fam: &str, r: &mut rng::Rng, n: u64, x: &mut exec::Exec, sink: &mut Sink) {
+    match fam {
+        "notes" => gen2::notes(r, n, x, sink),
+        "gnuhash" => gen2::hash(r, n, x, sink, "gnu"),
+        "sysvhash" => gen2::hash(r, n, x, sink, "sysv"),
+        "symver" => gen2::symver(r, n, x, sink),
+        "links" => gen2::links(r, n, x, sink),
+        _ => panic!("harness: unknown generator family {fam}"),
+    }
 }
